@@ -4,6 +4,7 @@ CONSTANTS
   DevConstructDropsWriteError = FALSE
   DevConstructLeavesWriter = FALSE
   DevUpdateReturnsTable = TRUE
+  DevMemoNoDrainOnCancel = FALSE
   DriverCloses = TRUE
   Plans = {}
   ChanSizes = {}
